@@ -186,6 +186,55 @@ fn run(ctx: &mut Ctx) {
             }
         }
     }
+    // whole-word values: a field that is 0 / all-ones / equal to a sibling field
+    ctx.bound("field_words", "every header-tag kind: every 32-bit body word set to each EDGE32 value and to the value of every other body word; every pair of body words over {0, 1, 0xFFFFFFFF}^2 (enumerated fields kept inside their defined values); same program and oracle as above");
+    for kind in 1..=10u16 {
+        let n = if kind == hd::INFO_REQ { 4 } else { 0 };
+        let img = hd::sample(kind, 1, n);
+        let words: Vec<usize> = (8..img.len().saturating_sub(3)).step_by(4).collect();
+        let word_ok = |t: &[u8]| match kind {
+            hd::CONSOLE => rd32(t, 8) <= 1,
+            hd::RELOCATABLE => rd32(t, 20) <= 2,
+            _ => true,
+        };
+        let mut wcases: Vec<Vec<(usize, u32)>> = vec![];
+        for &w in &words {
+            for &v in EDGE32.iter() {
+                wcases.push(vec![(w, v)]);
+            }
+            for &w2 in &words {
+                if w2 != w {
+                    wcases.push(vec![(w, rd32(&img, w2))]);
+                }
+            }
+        }
+        for (i, &w) in words.iter().enumerate() {
+            for &w2 in &words[i + 1..] {
+                for a in [0u32, 1, 0xFFFF_FFFF] {
+                    for b in [0u32, 1, 0xFFFF_FFFF] {
+                        wcases.push(vec![(w, a), (w2, b)]);
+                    }
+                }
+            }
+        }
+        for case in wcases {
+            let mut t = img.clone();
+            for &(w, v) in &case {
+                wr32(&mut t, w, v);
+            }
+            if !word_ok(&t) {
+                continue;
+            }
+            let filler = hd::sample(if kind == hd::FRAMEBUFFER { hd::ENTRY } else { hd::FRAMEBUFFER }, 2, 0);
+            let h = hd::header(0, &[filler, t, hd::end_tag()], 0xF7);
+            let describe = || J::obj().set("part", "field_words").set("kind", hd::kind_name(kind)).set("words_set", J::Arr(case.iter().map(|(w, v)| J::from(format!("@{} = {:#x}", w, v))).collect())).set("header", J::hex(&h));
+            ctx.leaf(describe, |ctx| {
+                ctx.state(hash::hash_bytes(&h));
+                ctx.nontrivial();
+                exec(ctx, &arena, &h, std::slice::from_ref(&kind), "field_words");
+            });
+        }
+    }
     let maxlen = if ctx.quick() { 3 } else { 4 };
     ctx.bound("selection", format!("per kind 1..=10: all tag sequences of length <= {} over {{instance 1, instance 2, another kind, end}} + final end tag; all 11 x 11 ordered pairs with all 10 getters; information-request lists of length 0..={} and headers whose tags lie on both sides of offsets 8192 and 32768 (2030..2043, 8182..8186, 16384 requests followed by three more tags)", maxlen, if ctx.quick() { 8 } else { 24 }));
     for kind in 1..=10u16 {
